@@ -8,9 +8,18 @@ macro_rules! sel {
 
 macro_rules! flavour_impl {
     ($kind:ident) => {
+        pub enum Kept {
+            Node(Option<Node<K, N, E>>),
+            Path(Option<Vec<Edge<K, N, E>>>),
+            Nodes(Vec<Node<K, N, E>>),
+            Edges(Vec<Edge<K, N, E>>),
+        }
+
         pub struct World {
             pub nodes: Vec<Node<K, N, E>>,
+            pub ids: Vec<usize>,
             pub graph: Option<Graph<K, N, E>>,
+            pub kept: RefCell<Vec<(String, Kept)>>,
         }
 
         fn edge_json(e: &Edge<K, N, E>) -> Value {
@@ -85,7 +94,7 @@ macro_rules! flavour_impl {
                             "out_degree": n.out_degree(), "in_degree": n.in_degree(),
                             "is_root": n.is_root(), "is_leaf": n.is_leaf(), "is_orphan": n.is_orphan(),
                             "is_connected": ic, "find_out": fo, "find_in": fi,
-                            "key": *n.key(), "value": *n.value(),
+                            "key": *n.key(), "value": n.value().v,
                         }));
                     }, {
                         let o: Vec<Value> = n.iter().map(|Edge(u, v, e)| {
@@ -97,7 +106,7 @@ macro_rules! flavour_impl {
                             "adj": o, "self_ok": self_ok,
                             "degree": n.degree(), "is_orphan": n.is_orphan(),
                             "is_connected": ic, "find_adj": fa,
-                            "key": *n.key(), "value": *n.value(),
+                            "key": *n.key(), "value": n.value().v,
                         }));
                     });
                 }
@@ -140,7 +149,7 @@ macro_rules! flavour_impl {
             }
 
             fn node_obs(&self, n: &Node<K, N, E>) -> Value {
-                json!({"alias": self.alias_of(n), "key": *n.key(), "value": *n.value()})
+                json!({"alias": self.alias_of(n), "key": *n.key(), "value": n.value().v})
             }
 
             fn exists_now(&self, lst: &str, owner: K, other: K, val: E) -> bool {
@@ -217,10 +226,10 @@ macro_rules! flavour_impl {
                     sel!($kind, {
                         let o: Vec<Value> = n.iter_out().map(|Edge(_, v, e)| json!([*v.key(), e])).collect();
                         let i: Vec<Value> = n.iter_in().map(|Edge(u, _, e)| json!([*u.key(), e])).collect();
-                        out.push(json!({"out": o, "in": i, "key": *n.key(), "value": *n.value()}));
+                        out.push(json!({"out": o, "in": i, "key": *n.key(), "value": n.value().v}));
                     }, {
                         let o: Vec<Value> = n.iter().map(|Edge(_, v, e)| json!([*v.key(), e])).collect();
-                        out.push(json!({"adj": o, "key": *n.key(), "value": *n.value()}));
+                        out.push(json!({"adj": o, "key": *n.key(), "value": n.value().v}));
                     });
                 }
                 Value::Array(out)
@@ -276,10 +285,20 @@ macro_rules! flavour_impl {
                                 "foreach" => { $s = $s.for_each(&mut fe); }
                                 _ => {}
                             }
+                            let keep = spec.get("keep").and_then(|k| k.as_str()).map(|k| k.to_string());
                             match mode {
-                                "search" => match $s.search() { Some(n) => json!(*n.key()), None => Value::Null },
-                                "path" => match $s.search_path() { Some(p) => Value::Array(p.edges.iter().map(edge_json).collect()), None => Value::Null },
-                                "cycle" => match $s.search_cycle() { Some(p) => Value::Array(p.edges.iter().map(edge_json).collect()), None => Value::Null },
+                                "search" => {
+                                    let r = $s.search();
+                                    let v = match &r { Some(n) => json!(*n.key()), None => Value::Null };
+                                    if let Some(k) = keep { self.kept.borrow_mut().push((k, Kept::Node(r))); }
+                                    v
+                                }
+                                "path" | "cycle" => {
+                                    let r = if mode == "path" { $s.search_path() } else { $s.search_cycle() };
+                                    let v = match &r { Some(p) => Value::Array(p.edges.iter().map(edge_json).collect()), None => Value::Null };
+                                    if let Some(k) = keep { self.kept.borrow_mut().push((k, Kept::Path(r.map(|p| p.edges)))); }
+                                    v
+                                }
                                 x => panic!("mode {}", x),
                             }
                         }};
@@ -355,10 +374,17 @@ macro_rules! flavour_impl {
                             "foreach" => { s = s.for_each(&mut fe); }
                             _ => {}
                         }
+                        let keep = spec.get("keep").and_then(|k| k.as_str()).map(|k| k.to_string());
                         if spec["mode"].as_str().unwrap() == "nodes" {
-                            Value::Array(s.search_nodes().iter().map(|n| json!(*n.key())).collect())
+                            let r = s.search_nodes();
+                            let v = Value::Array(r.iter().map(|n| json!(*n.key())).collect());
+                            if let Some(k) = keep { self.kept.borrow_mut().push((k, Kept::Nodes(r))); }
+                            v
                         } else {
-                            Value::Array(s.search_edges().iter().map(edge_json).collect())
+                            let r = s.search_edges();
+                            let v = Value::Array(r.iter().map(edge_json).collect());
+                            if let Some(k) = keep { self.kept.borrow_mut().push((k, Kept::Edges(r))); }
+                            v
                         }
                     });
                 }
@@ -421,6 +447,44 @@ macro_rules! flavour_impl {
                 }
                 let a = st.as_array().unwrap();
                 let op = a[0].as_str().unwrap();
+                if op == "drop" {
+                    let i = us(&a[1]);
+                    let dummy = Node::new(usize::MAX - i, Tracked { v: 0, id: 0 });
+                    let old = std::mem::replace(&mut self.nodes[i], dummy);
+                    drop(old);
+                    return json!("ok");
+                }
+                if op == "drop_graph" {
+                    self.graph = None;
+                    return json!("ok");
+                }
+                if op == "drop_kept" {
+                    let name = a[1].as_str().unwrap();
+                    self.kept.borrow_mut().retain(|(k, _)| k != name);
+                    return json!("ok");
+                }
+                if op == "drops" {
+                    return json!(self.ids.iter().map(|id| Tracked::drops_of(*id)).collect::<Vec<_>>());
+                }
+                if op == "use_kept" {
+                    let name = a[1].as_str().unwrap();
+                    let kept = self.kept.borrow();
+                    let mut out = vec![];
+                    let deg = |n: &Node<K, N, E>| -> usize { sel!($kind, { n.out_degree() + n.in_degree() }, { n.degree() }) };
+                    for (k, v) in kept.iter() {
+                        if k != name { continue; }
+                        let mut push = |n: &Node<K, N, E>| out.push(json!([*n.key(), n.value().v, deg(n)]));
+                        match v {
+                            Kept::Node(Some(n)) => push(n),
+                            Kept::Node(None) => {}
+                            Kept::Path(Some(es)) => for e in es { push(&e.0); push(&e.1); },
+                            Kept::Path(None) => {}
+                            Kept::Nodes(ns) => for n in ns { push(n); },
+                            Kept::Edges(es) => for e in es { push(&e.0); push(&e.1); },
+                        }
+                    }
+                    return Value::Array(out);
+                }
                 if op == "g_new" {
                     self.graph = Some(Graph::new());
                     return json!("ok");
@@ -476,9 +540,11 @@ macro_rules! flavour_impl {
         }
 
         pub fn run(scen: &Value, tx: &mpsc::Sender<Value>) {
-            let mut w = World { nodes: vec![], graph: None };
+            let mut w = World { nodes: vec![], ids: vec![], graph: None, kept: RefCell::new(vec![]) };
             for kv in scen["nodes"].as_array().unwrap() {
-                w.nodes.push(Node::new(us(&kv[0]), i6(&kv[1])));
+                let t = Tracked::new(i6(&kv[1]));
+                w.ids.push(t.id);
+                w.nodes.push(Node::new(us(&kv[0]), t));
             }
             for st in scen["steps"].as_array().unwrap() {
                 let r = catch_unwind(AssertUnwindSafe(|| w.step(st)));
